@@ -10,3 +10,4 @@ CONSTANTS
   Resizes <- CursorResizes
   MaxDepth = 3
   Emit = TRUE
+  CheckDump = FALSE
